@@ -139,6 +139,9 @@ def gen_objects(rng, mode, hostile, chronological):
         elif kind == "s":
             p = rng.choice(GOOD_PATHS).format(a=rng.randint(0, 512), b=rng.randint(0, 384), c=rng.randint(0, 512), d=rng.randint(0, 384),
                                                 e=rng.randint(0, 512), f=rng.randint(0, 384))
+            if rng.random() < 0.3:
+                from .props.c14 import rand_path
+                p = rand_path(rng)
             if rng.random() < hostile:
                 p = rng.choice(PATHS)
             reps = rng.choice([1, 1, 2, 3, 5])
